@@ -97,6 +97,12 @@ def run(ctx):
     ]
     ctx.mc("Fixed", "MC_Fixed" if ctx.quick else "MC_Fixed_6",
            need_actions=("ChainStep", "Start", "FixedStep", "FixedEnd"), timeout=1800)
+    # the fixed phase refines the abstraction whose exact-size result is proved for EVERY n and k (TLAPS, FixedSizeProof_proofs.tla)
+    ctx.mc("FixedSizeRefines", "MC_FixedSizeRefines", need_actions=("FixedStep", "FixedEnd"))
+    ctx.mc("FixedSizeRefines", "MC_FixedSizeRefines_neg", expect="ExitAgrees")
+    if not ctx.quick:
+        from harness import proofs
+        proofs.recheck(ctx, ["FixedSizeProof_proofs"])
     items = inputs(ctx)
     rec = par.pmap(_record, items)
     cases = [c for c, _ in rec]
